@@ -872,7 +872,7 @@ def run(ctx):
                     m_skip.append(spec)
     evaluate(ctx, 'simple-skip-edges', 'mut', m_skip)
     m_rand = []
-    for _ in range(ctx.budget(180, 4500)):
+    for _ in range(ctx.budget(120, 4500)):
         par = random_graph_spec(rng)
         for fn in MUTATIONS:
             m_rand.append(mutation_spec(rng, fn, par))
@@ -887,7 +887,7 @@ def run(ctx):
                 c_small.append(crossover_spec(rng, fn, lst, par2=rng.choice(listings(rng.choice(shapes)))))
     evaluate(ctx, 'crossovers-small', 'cx', c_small)
     c_rand = []
-    for _ in range(ctx.budget(130, 3000)):
+    for _ in range(ctx.budget(90, 3000)):
         par = random_graph_spec(rng, 8)
         for fn in CROSSOVERS:
             c_rand.append(crossover_spec(rng, fn, par))
@@ -926,7 +926,7 @@ def replay(ctx, payload):
     if not case or 'spec' not in case:
         return
     specs = []
-    for k in range(12):
+    for k in range(6):
         sp = dict(case['spec'])
         sp['seed'] = sp['seed'] + k
         specs.append(sp)
